@@ -75,6 +75,7 @@ pub fn weeks() -> Vec<Vec<WeekRange>> {
         vec![wk(1, 53, 2)],
         vec![wk(53, 53, 1)],
         vec![wk(2, 52, 5)],
+        vec![wk(50, 52, 1)], // ends at 52: week 53 exists in some years only
     ]
 }
 
@@ -101,6 +102,8 @@ pub fn weekdays() -> Vec<Vec<WeekDayRange>> {
         vec![hol(HolidayKind::Public, 0), wd(Sat, Sat)],
         vec![wd(Sat, Sun)],
         vec![wd_nth(Mon, &[1, 2, 3, 4, 5, -1, -2, -3, -4, -5], 1)], // every nth, with an offset
+        // the last occurrence of every weekday = the last seven days of the month (month lengths, leap rule)
+        vec![wd_nth(Mon, &[-1], 0), wd_nth(Tue, &[-1], 0), wd_nth(Wed, &[-1], 0), wd_nth(Thu, &[-1], 0), wd_nth(Fri, &[-1], 0), wd_nth(Sat, &[-1], 0), wd_nth(Sun, &[-1], 0)],
     ]
 }
 
